@@ -214,7 +214,7 @@ func GenAction(t *rapid.T, bias GenBias) Action {
 			}
 		}
 	case 2: // storage / contracts
-		k := rapid.IntRange(0, 16).Draw(t, "st")
+		k := rapid.IntRange(0, 18).Draw(t, "st")
 		a.A = rapid.IntRange(0, 4).Draw(t, "contract")
 		switch {
 		case k <= 3:
@@ -250,6 +250,11 @@ func GenAction(t *rapid.T, bias GenBias) Action {
 			a.N = rapid.Int64Range(0, 3).Draw(t, "amt")
 		case k == 15:
 			GenOracleRequest(t, &a) // via a deployed contract: pays the Oracle price, adds a pending request
+		case k >= 17: // a question to the Ledger contract about the current or a recent block
+			a.Kind = "ledger_q"
+			a.A = rapid.SampledFrom([]int{0, 0, 0, 1, 2, 5, 9, 14, 30}).Draw(t, "back")
+			a.B = rapid.IntRange(0, 2).Draw(t, "txidx")
+			a.N = rapid.Int64Range(0, 1).Draw(t, "q")
 		case k == 14:
 			a.Kind, a.S = "invoke", "find"
 			a.K = GenStorageKey(t, "k")
